@@ -318,7 +318,7 @@ def generate(rng, tier, scale=1):
                 cases.append(chunk_case("h", ">", size, rand_vals(rng, "h", size + 1), -2, strategy))
         if not quick:
             cases.append(chunk_case("h", "<", 32769, [1, 2, 3], 0, "array"))
-    nrand = (700 if quick else 12000) * scale
+    nrand = (1500 if quick else 12000) * scale
     for _ in range(nrand):
         fmt = rng.choice("bhifd" if rng.random() < 0.6 else MOREFMT)
         size = rng.choice([1, 2, 3, rng.randint(1, 9), rng.randint(1, 40)])
@@ -422,7 +422,7 @@ def generate(rng, tier, scale=1):
                                               route=("path", "fileobj", "wave")[(k + nf) % 3]))
         for bad in c18_res.BADS:
             cases.append(wav_case(16, 1, True, [1, 2], bad=bad))
-    for _ in range((300 if quick else 4000) * scale):
+    for _ in range((700 if quick else 4000) * scale):
         r = rng.random()
         bits = rng.choice([8, 16, 24, 32]) if r < 0.8 else rng.choice([1, 4, 7, 9, 12, 15, 17, 20, 23, 25, 31, 33, 40, 64])
         channels = rng.choice([1, 2]) if rng.random() < 0.9 else rng.choice([3, 4])
@@ -1809,7 +1809,7 @@ def generate_res(rng, tier, scale=1):
                         for tail in ([], ["n"], ["c"], ["n", "c"]):
                             cases.append(res_case(bits, channels, (bits + channels) % 3 == 0, samples, source,
                                                   ["n"] * (len(samples) + 1) + tail, cut=cut, spy=len(tail) != 1))
-    for _ in range((500 if quick else 6000) * scale):
+    for _ in range((1200 if quick else 6000) * scale):
         bits = rng.choice([8, 16, 24, 32])
         channels = rng.choice([1, 2])
         nf = rng.choice([0, 1, 2, rng.randint(0, 10)])
@@ -1819,6 +1819,7 @@ def generate_res(rng, tier, scale=1):
                              "pathlike"])
         kw = {"spy": rng.random() < 0.6, "others": rng.choice([0, 0, 1, 2]),
               "keep_shape": rng.choice(["pos", "kw", "omit", "allkw"]),
+              "keep_spell": rng.choice([None, None, "int", "obj", "float"]),
               "rate": rng.choice([8000, 44100, 1, rng.randint(1, 400000)])}
         r = rng.random()
         if r < 0.08:
@@ -1854,6 +1855,7 @@ def tally_res(eng, c, io_):
         eng.count("res.riff_variant", k)
     eng.count("res.channels", c["channels"])
     eng.count("res.keep_shape", c.get("keep_shape", "pos") + ("/keep" if c["keep"] else "/norm"))
+    eng.count("res.keep_spelling", c.get("keep_spell") or "bool")
     eng.count("res.caller_other_handles", c.get("others", 0))
     eng.count("res.file", "bad:" + c["bad"] if c.get("bad") else "truncated" if c.get("cut") else
               "channels>2" if c["channels"] > 2 else "riff-variant" if c.get("riff") else "plain")
@@ -1883,7 +1885,7 @@ def shrink_res(c):
         yield dict(c, events=ev[1:])
         if "c" in ev:
             yield dict(c, events=[e for e in ev if e != "c"])
-    for k in ("others", "keep_shape", "pathkind", "riff", "rate"):
+    for k in ("others", "keep_shape", "keep_spell", "pathkind", "riff", "rate"):
         if c.get(k) and not (k == "rate" and c[k] == 8000):
             d = dict(c)
             d.pop(k)
